@@ -652,8 +652,17 @@ func (s *Sim) hashWire(parts ...uint64) {
 func (s *Sim) drive() {
 	defer close(s.done)
 	burst := s.P.Knob("burst", 0)
+	var lastBreaks uint64
 	for {
 		synctest.Wait()
+		// A wake-up that the spin guard did not cause (no busy loop was made
+		// to sleep since the last one) means the system went idle by itself:
+		// whatever yields were counted since are not a spin.
+		if b := rtSpinBreaksNow(); b == lastBreaks {
+			rtSpinReset()
+		} else {
+			lastBreaks = b
+		}
 		select {
 		case <-s.stop:
 			return
